@@ -390,6 +390,12 @@ _GENENC_CLAIM = (" REGENERATED MODELS: the SerializeTo methods of %d layers are 
                  "serialize buffer whose PrependBytes / AppendBytes hand back bytes of INDETERMINATE content, and proved equal to the encoder models the theorems are "
                  "about for every layer value, every inner payload and every stale content (Proofs/GenEnc.lean: T_enc_eq) - a serialiser that leaves a byte unwritten "
                  "on one path, swaps two fields or changes a mask breaks a proof obligation at build time." % GENENC_LAYERS)
+# The wrappers around SendCommand as the source has them now (factgen -> Gen/Facts.lean: apiWrappers) — Proofs/ApiWrappers.lean
+for _p in ("C06", "C07", "C17"):
+    PROPS[_p]["proofs"] = PROPS[_p]["proofs"] + ["Bmc.Proofs.ApiWrappers"]
+    PROPS[_p]["claim"] += (" API WRAPPERS: the shape the API model assumes of every wrapper around SendCommand (a command value allocated by the call from the "
+                           "caller's arguments, sent on the receiver, ValidateResponse, the response struct or one field handed back, no other statement) is "
+                           "re-extracted from the source on every run and compared with the expected table (Proofs/ApiWrappers.lean).")
 for _p in ("C06", "C08"):
     PROPS[_p]["claim"] += _GENENC_CLAIM
     PROPS[_p]["proofs"] = PROPS[_p]["proofs"] + ["Bmc.Proofs.GenEnc.TranslatedOk", "Bmc.Proofs.GenEnc.GetSensorReadingReq", "Bmc.Proofs.GenEnc.GetDCMICapabilitiesInfoReq", "Bmc.Proofs.GenEnc.GetDCMISensorInfoReq", "Bmc.Proofs.GenEnc.ChassisControlReq", "Bmc.Proofs.GenEnc.CloseSessionReq", "Bmc.Proofs.GenEnc.GetChannelAuthenticationCapabilitiesReq", "Bmc.Proofs.GenEnc.GetChannelCipherSuitesReq", "Bmc.Proofs.GenEnc.GetSDRReq", "Bmc.Proofs.GenEnc.GetSessionInfoReq", "Bmc.Proofs.GenEnc.SetSessionPrivilegeLevelReq", "Bmc.Proofs.GenEnc.OpenSessionReq", "Bmc.Proofs.GenEnc.RAKPMessage3", "Bmc.Proofs.GenEnc.RAKPMessage1", "Bmc.Proofs.GenEnc.V1Session", "Bmc.Proofs.GenEnc.Message", "Bmc.Proofs.GenEnc.GetPowerReadingReq", "Bmc.Proofs.GenEnc.V2Session"]
